@@ -33,16 +33,27 @@ build_race() {
     echo "BUILD-FAILURE (not a property violation): race build failed"; tail -30 .build/build-race.log; exit 2
   fi
 }
+# second binary: the portable (non-amd64 / go1.25+) implementation, selected by the extra build tag go1.25
+# (flips every `amd64 && !go1.25` constraint under the go1.23 toolchain). Needed by C18 and C06 only.
+build_portable() {
+  (cd harness && go build ${MODFLAG:-} -tags "verif go1.25" -overlay "$ROOT/.build/overlay.json" -o "$ROOT/bin/verif-portable" ./cmd/verif) > .build/build-portable.log 2>&1
+  if [ $? -ne 0 ]; then
+    echo "BUILD-FAILURE (not a property violation): portable variant (-tags go1.25) of $REPO with hooks does not build" ; tail -30 .build/build-portable.log; exit 2
+  fi
+}
+needs_portable() { case "$1" in C18|C06) return 0;; *) return 1;; esac; }
 cmd=${1:-}
 case "$cmd" in
-  build) build; build_race ;;
+  build) build; build_race; build_portable ;;
   check)
     build
     [ "$2" = "C12" ] && build_race
+    needs_portable "$2" && build_portable
     tier=${3:-${VERIF_TIER:-quick}}
     exec "$ROOT/bin/verif" check "$2" --tier "$tier" ;;
   replay)
     build
+    case "$2" in */C18/*|*/C06/*) build_portable;; esac
     exec "$ROOT/bin/verif" replay "$2" ;;
   *) echo "usage: run.sh check <ID> [tier] | replay <file> | build"; exit 2 ;;
 esac
